@@ -328,3 +328,23 @@ package templ
 //@   use return.2: css_decl_item(p, v)
 //@   assert return.2: inL(result, CSS_DECL_ITEM)
 //@   assert return.1: inL(sub(result, 0, len(result) - len(value) - 2), CSS_NAME_SAFE) && isSuffix(cat(":", value, ";"), result)
+
+// ---------------------------------------------------------------------------
+// C14 (confinement): the deprecated copy of the watch-mode cache in this package - same discipline as in runtime.
+//@ guarded watchModeCache by watchStateMutex
+
+//@ func getWatchedStrings [C14]
+//@   requires !held(watchStateMutex)
+//@   assume entry: watchModeCache != nil
+//@   modifies failedDuring
+//@   ensures !held(watchStateMutex)
+
+//@ func cacheStrings [C14]
+//@   requires held(watchStateMutex)
+//@   assume entry: watchModeCache != nil
+//@   modifies failedDuring
+//@   ensures held(watchStateMutex)
+
+//@ func WriteWatchModeString [C14]
+//@   requires lineNum >= 1
+//@   modifies doc(w), failedDuring
